@@ -1,50 +1,27 @@
 //go:build verif
 
-// C04 contracts that need an engine feature that does not exist yet (they do NOT discharge today: the result of
-// lo.Assign is an arbitrary, possibly aliased map). They were validated (all obligations discharged, mutants caught)
-// against pending/variant/, a copy of statenode.go in which lo.Assign is expanded to its definition.
-// An `after lo.Assign assume fresh($r0)..` stand-in is NOT usable: results of "pure" library calls are assumed to be
-// allocated before the call, so the assumption is contradictory and makes everything after the call vacuous.
-//   needed: stub for github.com/samber/lo.Assign (fresh map, union of keys, later maps win)
-//   needed: stub for k8s.io/apimachinery/pkg/api/resource.MustParse (at least MustParse("1") == 1e9 nano-units, pure)
+// C04 clauses that cannot be delivered as contracts today (comment-only; nothing in this file is read by kvc).
 package state
 
-// ---- (2) Allocatable: what an in-flight node counts with ----
-// Until a managed node is initialized the NodeClaim's status (the allocatable of the instance type it was
-// launched as) stands in: alone while no Node exists, and per resource name wherever the Node reports
-// zero / nothing once the Node has appeared.
-//@ pure snUsesClaimStatus(n *StateNode) bool = n.NodeClaim != nil && !snInitialized(n)
-//@ pure snNodeAlloc(n *StateNode) = n.Node.Status.Allocatable
-//@ pure snClaimAlloc(n *StateNode) = n.NodeClaim.Status.Allocatable
-
-//@ func (*StateNode).Allocatable
-//@   prop C04
-//@   modifies nothing
-//@   ensures [initialized] !snUsesClaimStatus(in) ==> result == snNodeAlloc(in)
-//@   ensures [claimOnly] (snUsesClaimStatus(in) && in.Node == nil) ==> result == snClaimAlloc(in)
-//@   ensures [mergedFresh] (snUsesClaimStatus(in) && in.Node != nil) ==> (fresh(result) && result != nil)
-//@   ensures [mergedKeys] (snUsesClaimStatus(in) && in.Node != nil) ==> (forall k corev1.ResourceName {k in result} :: (k in result) <==> ((k in snNodeAlloc(in)) || (k in snClaimAlloc(in))))
-//@   ensures [mergedVals] (snUsesClaimStatus(in) && in.Node != nil) ==> (forall k corev1.ResourceName {result[k]} :: result[k] == (((k in snClaimAlloc(in)) && snNodeAlloc(in)[k] == 0) ? snClaimAlloc(in)[k] : snNodeAlloc(in)[k]))
-//@   loop 1 invariant ret == loopentry(ret) && fresh(ret) && ret != nil
-//@   loop 1 invariant [keys] forall k corev1.ResourceName {k in ret} :: (k in ret) <==> ((k in snNodeAlloc(in)) || seen(k))
-//@   loop 1 invariant [vals] forall k corev1.ResourceName {ret[k]} :: ret[k] == ((seen(k) && snNodeAlloc(in)[k] == 0) ? snClaimAlloc(in)[k] : snNodeAlloc(in)[k])
-
+// (*StateNode).Capacity already has a contract in /repo (C11: `modifies nothing`, [fresh]). C04 would like it stronger;
+// the following was validated (all obligations discharged, mutants caught) while no other contract existed:
 // ---- (2b) Capacity: same override rule, and every state node has a capacity of exactly one `nodes` ----
-//@ pure snNodeCap(n *StateNode) = n.Node.Status.Capacity
-//@ pure snClaimCap(n *StateNode) = n.NodeClaim.Status.Capacity
-//@ pure snCapBase(n *StateNode, k corev1.ResourceName) int = !snUsesClaimStatus(n) ? snNodeCap(n)[k] : (n.Node == nil ? snClaimCap(n)[k] : (((k in snClaimCap(n)) && snNodeCap(n)[k] == 0) ? snClaimCap(n)[k] : snNodeCap(n)[k]))
-//@ pure snCapHas(n *StateNode, k corev1.ResourceName) bool = !snUsesClaimStatus(n) ? (k in snNodeCap(n)) : (n.Node == nil ? (k in snClaimCap(n)) : ((k in snClaimCap(n)) || (k in snNodeCap(n))))
+// WANTED pure snNodeCap(n *StateNode) = n.Node.Status.Capacity
+// WANTED pure snClaimCap(n *StateNode) = n.NodeClaim.Status.Capacity
+// WANTED pure snCapBase(n *StateNode, k corev1.ResourceName) int = !snUsesClaimStatus(n) ? snNodeCap(n)[k] : (n.Node == nil ? snClaimCap(n)[k] : (((k in snClaimCap(n)) && snNodeCap(n)[k] == 0) ? snClaimCap(n)[k] : snNodeCap(n)[k]))
+// WANTED pure snCapHas(n *StateNode, k corev1.ResourceName) bool = !snUsesClaimStatus(n) ? (k in snNodeCap(n)) : (n.Node == nil ? (k in snClaimCap(n)) : ((k in snClaimCap(n)) || (k in snNodeCap(n))))
 
-//@ func (*StateNode).Capacity
-//@   prop C04
-//@   modifies nothing
-//@   ensures [fresh] fresh(result) && result != nil
-//@   ensures [keys] forall k corev1.ResourceName {k in result} :: (k in result) <==> (k == resources.Node || snCapHas(in, k))
-//@   ensures [vals] forall k corev1.ResourceName {result[k]} :: k != resources.Node ==> result[k] == snCapBase(in, k)
-//@   ensures [oneNode] result[resources.Node] == @resource.MustParse
-//@   loop 1 invariant ret == loopentry(ret) && fresh(ret) && ret != nil
-//@   loop 1 invariant [keys] forall k corev1.ResourceName {k in ret} :: (k in ret) <==> ((k in snNodeCap(in)) || seen(k))
-//@   loop 1 invariant [vals] forall k corev1.ResourceName {ret[k]} :: ret[k] == ((seen(k) && snNodeCap(in)[k] == 0) ? snClaimCap(in)[k] : snNodeCap(in)[k])
+// WANTED func (*StateNode).Capacity
+// WANTED   prop C04
+// WANTED   modifies nothing
+// WANTED   ensures [fresh] fresh(result) && result != nil
+// WANTED   ensures [keys] forall k corev1.ResourceName {k in result} :: (k in result) <==> (k == resources.Node || snCapHas(in, k))
+// WANTED   ensures [vals] forall k corev1.ResourceName {result[k]} :: k != resources.Node ==> result[k] == snCapBase(in, k)
+// WANTED   ensures [oneNode] result[resources.Node] == @resource.MustParse
+// WANTED   loop 1 invariant ret == loopentry(ret) && fresh(ret) && ret != nil
+// WANTED   loop 1 invariant [keys] forall k corev1.ResourceName {k in ret} :: (k in ret) <==> ((k in snNodeCap(in)) || seen(k))
+// WANTED   loop 1 invariant [vals] forall k corev1.ResourceName {ret[k]} :: ret[k] == ((seen(k) && snNodeCap(in)[k] == 0) ? snClaimCap(in)[k] : snNodeCap(in)[k])
+
 
 // ---- (1) Taints, filtered case: clauses wanted in addition to [unfiltered] of the main file (NOT checkable today) ----
 // lo.Reject over a slice of structs ([]corev1.Taint) returns an arbitrary slice in the engine (isStructLike -> "filtered"),
